@@ -236,7 +236,7 @@ func c07Shape(q *c07Req) string {
 }
 
 func c07(r *vkit.Run) {
-	r.SetRule("full in-process BFE, 3 clusters (WLC with retries+cross retry, WRR without keep-alive, all-dead), scripted backends (ok / close before reply on first or every attempt / RST) and a refused port in each sub-cluster, harness filters with per-request verdict scripts at 6 callback points, some clients abandoning; batches are followed by a barrier on bfe's own session-finish callbacks, then ConnNum() of every backend ever selected must be 0 and never negative; parked phases hold K requests inside backends and compare ConnNum(b) with the requests parked at b. Non-trivial = request with a failure, verdict or abandon ingredient; distinct = ingredient shape. When a batch leaves a backend non-zero the batch is bisected by single-request probes to name the responsible shape")
+	r.SetRule("full in-process BFE, 3 clusters (WLC with retries+cross retry, WRR without keep-alive, all-dead), scripted backends (ok / close before reply on first or every attempt / RST) and a refused port in each sub-cluster, harness filters with per-request verdict scripts at 6 callback points, some clients abandoning; batches are followed by a barrier on bfe's own session-finish callbacks, then ConnNum() of every backend ever selected must be 0 and never negative; parked phases hold K requests inside backends and compare ConnNum(b) with the requests parked at b. Non-trivial = request with a failure, verdict or abandon ingredient; distinct = ingredient shape. When a batch leaves a backend non-zero the batch is bisected by single-request probes to name the responsible shape. TUNNELS (second server): websocket and TLS-offload stream clusters with two accepting backends, one rejecting the upgrade (403), one closing at accept and one refused port each; batches of 60 tunnels whose clients close at once / after some bytes / by RST / right after the request / after half a request head; a poller watches for negative counts; after each batch every count must return to 0 (polled for up to one minute: a leak is permanent); parked phases hold 2K tunnels open and require ConnNum(b) == tunnels open at b for all nine backends")
 	env, err := c07Setup(r)
 	if err != nil {
 		r.Inconclusive("setup: " + err.Error())
@@ -444,5 +444,8 @@ func c07(r *vkit.Run) {
 		if v != 0 {
 			r.Violation("panic-counter:"+k, fmt.Sprintf("%s=%d", k, v), nil)
 		}
+	}
+	if r.Replay == "" {
+		c07Tunnels(r)
 	}
 }
